@@ -68,6 +68,9 @@ class SCache(Sym):
         return FA_id(lambda x: z3.Implies(self.dom[x], CALC(self.val[x]) == x))
 
     def sym_getitem(self, ex, k):
+        if isinstance(k, SIdPrefix):
+            ex.assumptions_used.add("keys of the state point cache are full 32-character ids: a shorter string is never a key")
+            raise RaiseSignal(KeyError("abbreviated id"))
         if not isinstance(k, SId):
             raise Unsupported("cache key")
         if not ex.decide(self.dom[k.e], "cache-hit"):
@@ -87,6 +90,106 @@ class SCache(Sym):
 
     def sym_contains(self, ex, k):
         return SBool(self.dom[k.e])
+
+
+class SCount(Sym):
+    """len() of a filtered id collection {x : P(x)}: compared with small constants only; "at least k" is stated with k distinct witnesses"""
+
+    def __init__(self, P):
+        self.P = P
+
+    def ge(self, k):
+        P = self.P
+        if k <= 0:
+            return z3.BoolVal(True)
+        xs = [z3.Const(f"cnt_w{k}_{j}", Id) for j in range(k)]
+        body = z3.And(*[P(x) for x in xs], *([z3.Distinct(*xs)] if k > 1 else []))
+        return z3.Exists(xs, body)
+
+    def rel(self, op, k):
+        if not isinstance(k, int) or isinstance(k, bool) or not -1 <= k <= 3:
+            raise Unsupported("comparison of a filtered count with this value")
+        ge, gt = self.ge(k), self.ge(k + 1)
+        return {"Eq": z3.And(ge, z3.Not(gt)), "NotEq": z3.Not(z3.And(ge, z3.Not(gt))), "Gt": gt, "GtE": ge, "Lt": z3.Not(ge), "LtE": z3.Not(gt)}[op]
+
+    def sym_eq(self, ex, other):
+        return SBool(self.rel("Eq", other))
+
+    def sym_compare(self, ex, op, other, reflected=False):
+        if reflected:
+            op = {"Gt": "Lt", "Lt": "Gt", "GtE": "LtE", "LtE": "GtE"}[op]
+        return SBool(self.rel(op, other))
+
+    def sym_truth(self, ex):
+        return self.ge(1)
+
+
+class SFilteredIds(Sym):
+    """[x for x in S if c(x)] over a collection of ids: the ids satisfying P, in an unspecified order"""
+
+    def __init__(self, P):
+        self.P = P
+
+    def sym_len(self, ex):
+        return SCount(self.P)
+
+    def sym_truth(self, ex):
+        return SCount(self.P).ge(1)
+
+    def sym_getitem(self, ex, k):
+        if isinstance(k, int) and not isinstance(k, bool) and 0 <= k <= 2:
+            if not ex.decide(SCount(self.P).ge(k + 1), f"filtered:len>{k}"):
+                raise RaiseSignal(IndexError("list index out of range"))
+            m = z3.Const(ex.fresh_name(f"elem{k}"), Id)
+            ex.assume(self.P(m))          # some element: the order of a directory listing / of a dict of ids is not specified
+            return SId(m)
+        raise Unsupported("index into a filtered id list")
+
+
+class SIdPrefix(Sym):
+    """an abbreviated job id: a string shorter than a full id; only `full_id.startswith(prefix)` is observable"""
+
+    def __init__(self, tag="prefix"):
+        self.tag = tag
+        self.n = z3.Int(f"len_{tag}")
+
+    def sym_len(self, ex):
+        return SInt(self.n)
+
+    def sym_isinstance(self, ex, cls):
+        return cls in (str, object)
+
+    def sym_hashable(self):
+        return True
+
+    def sym_truth(self, ex):
+        return self.n > 0
+
+
+HASPFX = z3.Function("HASPFX", Id, z3.BoolSort())          # the id starts with the abbreviated id under consideration
+
+
+def _sid_getattr(self, ex, name):
+    if name == "startswith":
+        def sw(p):
+            if isinstance(p, SIdPrefix):
+                return SBool(HASPFX(self.e))
+            raise Unsupported("startswith with this argument")
+        return NativeStub(sw, "str.startswith")
+    raise Unsupported(f"attribute .{name} of a job id")
+
+
+SId.sym_getattr = _sid_getattr
+SId.sym_len = lambda self, ex: 32          # a job id is the 32-character hex digest (JobDirs / calc_id contracts)
+
+
+def id_members(v):
+    """membership predicate of a collection of ids, or None"""
+    if isinstance(v, SCache):
+        return lambda x: v.dom[x]
+    if hasattr(v, "member"):
+        return v.member
+    return None
 
 
 class JobCtx(FSModel, Ctx):
@@ -111,6 +214,23 @@ class JobCtx(FSModel, Ctx):
                 raise PathEnd()
             raise Unsupported(f"open({loc}, {mode!r}): data files of a job are outside the file-system model")
         raise Unsupported(f"open(..., {mode!r})")
+
+    # ---- [x for x in <ids> if c(x)]: the sub-collection as a predicate (c must be branch-free)
+    def comprehension(self, interp, node, frame):
+        import ast
+        if isinstance(node, ast.ListComp) and len(node.generators) == 1:
+            g = node.generators[0]
+            if isinstance(g.target, ast.Name) and isinstance(node.elt, ast.Name) and node.elt.id == g.target.id and len(g.ifs) == 1 and not g.is_async and isinstance(g.iter, (ast.Name, ast.Attribute)):
+                src = interp.ev(g.iter, frame)
+                mem = id_members(src)
+                if mem is not None:
+                    x0 = z3.Const(interp.ex.fresh_name("cx"), Id)
+                    f = interp._comp_frame(frame)
+                    interp.assign_target(g.target, SId(x0), f)
+                    c = interp.ev(g.ifs[0], f)
+                    ce = c.sym_truth(interp.ex) if isinstance(c, Sym) else z3.BoolVal(bool(c))
+                    return SFilteredIds(lambda x: z3.And(mem(x), z3.substitute(ce, (x0, x))))
+        return NotImplemented
 
     # ---- calc_id (contract; verified separately for C01)
     def stub_calc_id(self, interp, b):
